@@ -30,8 +30,8 @@ def _kam_vals(names, clk):
     return v
 
 
-def decode_at(position: str, f):
-    """Returns list of (label, meter_datetime or exception) for the date-time fields f placed at the position."""
+def messages_at(position: str, f):
+    """[(label, decoder function, message bytes)] for the date-time fields f placed at the position."""
     from han import aidon, kaifa, kamstrup
 
     d = RC.dt12(*f)
@@ -68,8 +68,13 @@ def decode_at(position: str, f):
         names = RC.KAM_L2_1
         body = RC.kam_body(names, _kam_vals(names, f))
         out.append(("kamstrup body list2", kamstrup.decode_notification_body, body))
+    return out
+
+
+def decode_at(position: str, f):
+    """Returns list of (label, meter_datetime or exception, message) for the date-time fields f placed at the position."""
     res = []
-    for label, fn, msg in out:
+    for label, fn, msg in messages_at(position, f):
         try:
             res.append((label, fn(msg).get("meter_datetime"), msg))
         except Exception as ex:  # noqa: BLE001
